@@ -279,6 +279,8 @@ fn gen_item(rng: &mut Rng) -> (String, FormKind) {
         1 | 2 => {
             let body = *rng.pick(&[
                 "a = 1", "a = 1, b = \"s\"", "a = 300", "zzz", "", "alpha", "beta", "num = 7", "num = \"7\"", "rec(a = 2)", "rec(a = 2, q)", "k = \"v\", k2 = \"w\"", "k = \"v\", k = \"w\"", "a::b, c", "a::b, c = 1", "alpha, beta", "\"lit\"", "a = 1, a = 2, c",
+                // lists that are not lists of items: whatever T makes of them, a wrapper adds nothing to it
+                "1 2", "a b", "=", "a; b", ", a",
             ]);
             (format!("x({body})"), FormKind::List)
         }
